@@ -501,6 +501,63 @@ func run(c *fw.Ctx) {
 		}
 	}
 	r.flush()
+	// nesting depth: well-formed encodings of containers nested d deep (arrays, maps, alternating, sync maps), as an
+	// object and as a constant of a version 2 bytecode, whole and truncated: "not out of proportion to the length of the
+	// input" also holds when the length is all nesting
+	c.Family("deep-nesting", "arrays / maps / alternating / sync maps nested 10, 100, 1000, 3000 (thorough 10000) deep: whole, truncated at 5 places, innermost byte corrupted; DecodeObject and DecodeBytecodeFrom")
+	depths := []int{10, 100, 1000, 3000}
+	if c.Thorough() {
+		depths = append(depths, 10000)
+	}
+	for _, depth := range depths {
+		for shape := 0; shape < 4; shape++ {
+			if !c.Next() {
+				continue
+			}
+			c.Nontrivial()
+			var v ugo.Object = ugo.Array{ugo.Int(1), ugo.String("leaf")}
+			for i := 0; i < depth; i++ {
+				switch {
+				case shape == 0 || (shape == 2 && i%2 == 0):
+					v = ugo.Array{v}
+				case shape == 1 || shape == 2:
+					v = ugo.Map{"k": v}
+				default:
+					v = &ugo.SyncMap{Value: ugo.Map{"k": v}}
+				}
+			}
+			bc := &ugo.Bytecode{Main: &ugo.CompiledFunction{Instructions: []byte{byte(ugo.OpReturn), 0}}, Constants: []ugo.Object{v}}
+			var buf bytes.Buffer
+			if err := encoder.EncodeBytecodeTo(bc, &buf); err != nil {
+				c.Infra("deep-nesting: cannot encode depth %d shape %d: %v", depth, shape, err)
+				continue
+			}
+			whole := append([]byte(nil), buf.Bytes()...)
+			// the object alone: decode the bytecode once to get at the constant's own encoding is not needed - the
+			// containers implement BinaryMarshaler through the encoder's wrapper types
+			var obj []byte
+			switch x := v.(type) {
+			case ugo.Array:
+				obj, _ = encoder.Array(x).MarshalBinary()
+			case ugo.Map:
+				obj, _ = encoder.Map(x).MarshalBinary()
+			case *ugo.SyncMap:
+				obj, _ = (*encoder.SyncMap)(x).MarshalBinary()
+			}
+			key := fmt.Sprintf("deep|shape=%d|depth=%d", shape, depth)
+			r.add(tcase{key + "|whole|DecodeBytecodeFrom", decodeBC, whole})
+			r.add(tcase{key + "|whole|DecodeObject", decodeObj, obj})
+			for _, cut := range []int{len(obj) / 4, len(obj) / 2, len(obj) * 3 / 4, len(obj) - 8, len(obj) - 1} {
+				if cut > 0 && cut < len(obj) {
+					r.add(tcase{fmt.Sprintf("%s|cut=%d|DecodeObject", key, cut), decodeObj, append([]byte(nil), obj[:cut]...)})
+				}
+			}
+			bad := append([]byte(nil), obj...)
+			bad[len(bad)-3] ^= 0xff
+			r.add(tcase{key + "|innermost-corrupted|DecodeObject", decodeObj, bad})
+		}
+	}
+	r.flush()
 	// hand-made gob messages: everything the gob fallback can be told in a few bytes (type ids, lengths, nil interface)
 	gobAlpha := []byte{0, 1, 2, 3, 4, 5, 6, 7, 8, 0x0c, 0x10, 0x20, 0x40, 0x7f, 0x80, 0xfe, 0xff}
 	if c.Thorough() {
